@@ -123,6 +123,51 @@ pub fn err_str(e: &Error) -> String {
 pub fn child(args: &[String]) {
     // args: mode maxsteps prog stdin
     let mode = args[0].as_str();
+    if mode == "optimize" {
+        // args: optimize <level> <prog>; stdin carries a sentinel that must stay unread
+        let level: u8 = args[1].parse().unwrap();
+        let code = parse::parse(text_of(if args.len() > 2 { &args[2] } else { "" }));
+        let res = hyeong::core::optimize::optimize(code, level);
+        let tag = match res {
+            Ok((_, rest)) => format!("ok:{}", rest.len()),
+            Err(e) => err_str(&e),
+        };
+        let mut rest = Vec::new();
+        use std::io::Read;
+        std::io::stdin().read_to_end(&mut rest).unwrap();
+        let hex: String = rest.iter().map(|b| format!("{:02x}", b)).collect();
+        println!("HV-OPT-DONE {} SENTINEL {}", tag, hex);
+        return;
+    }
+    if mode == "dbgstates" {
+        // args: dbgstates <maxsteps> <prog>: Debug rendering of the state after 0..n steps, hex-encoded
+        let maxsteps: usize = args[1].parse().unwrap();
+        let code = parse::parse(text_of(if args.len() > 2 { &args[2] } else { "" }));
+        let mut state = UnOptState::new();
+        for c in &code {
+            state.push_code(c.clone());
+        }
+        let mut ipt = LineReader::new("");
+        let mut out = std::io::sink();
+        let mut err = std::io::sink();
+        let mut pc = 0usize;
+        let hexs = |s: &str| -> String { s.bytes().map(|b| format!("{:02x}", b)).collect() };
+        println!("D {}", hexs(&format!("{:?}", state)));
+        for _ in 0..maxsteps {
+            if pc >= code.len() {
+                break;
+            }
+            match execute::execute_one(&mut ipt, &mut out, &mut err, state, pc) {
+                Ok((st, npc)) => {
+                    println!("D {}", hexs(&format!("{:?}", st)));
+                    state = st;
+                    pc = npc;
+                }
+                Err(_) => break,
+            }
+        }
+        return;
+    }
     let maxsteps: usize = args[1].parse().unwrap();
     let code: Vec<UnOptCode> = parse::parse(text_of(&args[2]));
     let mut ipt = LineReader::new(if args.len() > 3 { &args[3] } else { "" });
@@ -295,4 +340,10 @@ pub fn handle_run(toks: &[&str]) -> String {
         }
     };
     format!("{}|o={}|e={}", end, dotted_bytes(&po), dotted_bytes(&pe))
+}
+
+// dbgstates <maxsteps> <prog>: comma-separated hex Debug strings of the states after 0..n steps
+pub fn handle_dbgstates(toks: &[&str]) -> String {
+    let (lines, _, _) = run_child("dbgstates", toks, 20000);
+    lines.iter().filter_map(|l| l.strip_prefix("D ")).collect::<Vec<_>>().join(",")
 }
